@@ -1,4 +1,4 @@
 From Coq Require Extraction.
 From Coq Require Import ExtrOcamlBasic.
-From NV Require Import Base.Witness Base.LE Bgzf.Crc32 Bgzf.Frame Bgzf.Writer Bgzf.Reader Bgzf.Inflate Bgzf.InflateFixed Bgzf.InflateTokens Bgzf.InflateDynamic Bgzf.InflateSpec.
-Extraction "model.ml" nv_types_witness run_script reader_read_to_end eof_block crc32 inflate inflate_raw deflate_stored deflate_l0 deflate_fixed_lit frame_bytes deflate_fixed_tokens expand deflate_dynamic deflate_blocks stream_out.
+From NV Require Import Base.Witness Base.LE Bgzf.Crc32 Bgzf.Frame Bgzf.Writer Bgzf.Reader Bgzf.Inflate Bgzf.InflateFixed Bgzf.InflateTokens Bgzf.InflateDynamic Bgzf.InflateSpec Bgzf.ReaderCalls.
+Extraction "model.ml" nv_types_witness run_script reader_read_to_end eof_block crc32 inflate inflate_raw deflate_stored deflate_l0 deflate_fixed_lit frame_bytes deflate_fixed_tokens expand deflate_dynamic deflate_blocks stream_out rinit read_gen run_reads r_virtual_position.
